@@ -333,7 +333,16 @@ def sharded_rank_fn(spec, tmpdir=None):
                         for q, w in zip(model.parameters(), weights):
                             q.copy_(w)
                     a = p._assignment
-                    p.load_state_dict(copy.deepcopy(sd), compute_inverses=ev[1])
+                    # the object that is loaded is either a copy or the very dict state_dict() returned (an in-memory checkpoint
+                    # that may be loaded again later): loading must leave it as it was
+                    loaded_obj = sd if spec.get('load_same_object') else copy.deepcopy(sd)
+                    p.load_state_dict(loaded_obj, compute_inverses=ev[1])
+                    saved = rec['sd'][-1]['state']
+                    intact = set(loaded_obj) == set(saved)
+                    if intact and 'layers' in saved:
+                        intact = set(loaded_obj['layers']) == set(saved['layers']) and all(
+                            torch.equal(loaded_obj['layers'][n_][f_], saved['layers'][n_][f_]) for n_ in saved['layers'] for f_ in ('A', 'G') if saved['layers'][n_][f_] is not None)
+                    rec['sd'][-1]['loaded_state_intact'] = (intact, sorted(set(saved) - set(loaded_obj)))
                     after = {}
                     for n, layer in p._layers.values():
                         after[n] = dict(A=None if layer.a_factor is None else layer.a_factor.clone(),
